@@ -10,6 +10,7 @@ CONSTANTS
   MaxLen = 4
   ListLens = {1}
   WithJP = FALSE
+  WithBroken = FALSE
   RepeatRecover = FALSE
 INIT CInit
 NEXT CNext
